@@ -78,12 +78,12 @@ def foldApp {V : Type} (app : V → List V → Res V) (inj : FO → V) (f : V) :
   | acc, [] => Res.pure acc
   | acc, x :: xs => Res.bind (app f [acc, inj x]) (fun acc' => foldApp app inj f acc' xs)
 
-def applyPap (r : Rec) (P : Prog) (f : String) (arity : Nat) (all : List SVal) : Res SVal :=
+/-- saturated application of the top-level function `f` -/
+def applyFull (r : Rec) (P : Prog) (f : String) (arity : Nat) (all : List SVal) : Res SVal :=
   if all.length = arity then
     match P.find f with
     | some d => if d.params.length = arity then r.body (d.params.zip all).reverse d.body else stuck
     | none => stuck
-  else if all.length < arity then Res.pure (.pap f arity all)
   else stuck
 
 def evalMatch (r : Rec) (env : Env) (t : Expr) (arms : List Arm) : Res SVal :=
@@ -138,7 +138,10 @@ def stepExpr (r : Rec) (P : Prog) (env : Env) : Expr → Res SVal
       | .fo (.lit (.bool true)) => r.body env t
       | .fo (.lit (.bool false)) => r.body env f
       | _ => stuck)
-  | .call f arity args => Res.bind (evalList r.expr env args) (fun vs => applyPap r P f arity vs)
+  | .call f arity args =>
+    -- fewer arguments than parameters: a partial application value (the given arguments are evaluated now)
+    Res.bind (evalList r.expr env args) (fun vs =>
+      if vs.length < arity then Res.pure (.pap f arity vs) else applyFull r P f arity vs)
   | .callv f args =>
     Res.bind (r.expr env f) (fun fv => Res.bind (evalList r.expr env args) (fun vs => r.app fv vs))
   | .lam ps b => Res.pure (.clo ps b env)
@@ -183,7 +186,9 @@ def stepBody (r : Rec) (env : Env) : Body → Res SVal
 
 def stepApp (r : Rec) (P : Prog) : SVal → List SVal → Res SVal
   | .clo ps b cenv, args => if ps.length = args.length then r.body ((ps.zip args).reverse ++ cenv) b else stuck
-  | .pap f arity given, args => applyPap r P f arity (given ++ args)
+  -- a function value is applied to all its remaining arguments (under-application of a VALUE is
+  -- outside the modelled fragment: stuck)
+  | .pap f arity given, args => applyFull r P f arity (given ++ args)
   | .fo _, _ => stuck
 
 def evalN (P : Prog) : Nat → Rec
